@@ -39,6 +39,24 @@ def analyse(job):
         out["refusal"] = type(e).__name__
         out["refusal_where"] = P.refusal_key(e)
         return out
+    if job.get("synth"):
+        # ordered list of synthesized invariants (free parameters set to 1, overall sign normalised)
+        try:
+            import sympy
+            from symengine import sympify as se
+            from unsolvable_analysis import UnsolvInvSynthesizer
+            sols = UnsolvInvSynthesizer.synth_inv([se(v) for v in job["synth"]["cand"]], job["synth"]["deg"], program)
+            lst = []
+            for c, f in (sols or []):
+                c = sympy.sympify(c)
+                c = sympy.factor(c.xreplace({x: 1 for x in c.free_symbols if x.name.startswith("_")}))
+                if str(c).startswith("-"):
+                    c = sympy.factor(-c)
+                lst.append(str(c))
+            out["synth"] = lst
+        except Exception as e:
+            out["synth"] = "error:" + type(e).__name__
+        return out
     src = set(job.get("source_vars", []))
     types_src, types_aux = {}, []
     for v, t in program.typedefs.items():
